@@ -225,6 +225,18 @@ func (f *Frame) loopEffects(li *loopInfo) *effectSet {
 					}
 				}
 			}
+			if u, ok := in.(*ssa.UnOp); ok && u.Op == token.ARROW {
+				if p := f.chanOf(u.X); p != nil {
+					e.comps[vc.ghostBool(p.drainedComp()).Name] = true
+				}
+			}
+			if sl, ok := in.(*ssa.Select); ok {
+				for _, s := range sl.States {
+					if p := f.chanOf(s.Chan); p != nil {
+						e.comps[vc.ghostBool(p.drainedComp()).Name] = true
+					}
+				}
+			}
 			if sd, ok := in.(*ssa.Send); ok {
 				if _, name := f.producerChan(sd.Chan); name != "" {
 					e.comps[vc.ghostBool("ChanFinal_"+name).Name] = true
